@@ -110,6 +110,10 @@ def _enc_item(prog, b, bb, t, self_arg, dest_arg, variant=None):
                 val = v0[2][0]
             else:
                 raise Unrecognised("value converted by %s before encoding" % v0[1]["name"])
+    elif v0[0] == "agg" and v0[1] == "adt" and v0[2].get("adt") == "parity_scale_codec::compact::CompactRef" and len(v0[3]) == 1:
+        # the wrapper written out: CompactRef(&self.f)
+        compact = True
+        val = v0[3][0]
     ap = paths.access_path(b, val)
     if ap is None or ap[0] != self_arg:
         raise Unrecognised("encoded value %s is not a field of self" % path_str(val))
@@ -205,6 +209,10 @@ def _decode_item(prog, b, t):
     if v[0] == "call" and v[1]["decl"] == "core::default::Default::default":
         raise Unrecognised("DEFAULT-SUBSTITUTION: a field is filled with Default::default() instead of being decoded "
                            "(it is skipped on the wire, so its value cannot survive a round trip)")
+    # `let Compact(x) = Compact::<u32>::decode(input)?` : the wrapper taken apart by hand instead of through `.into()`
+    if (v[0] == "field" and v[1][0] == "field" and v[1][1][0] == "downcast" and v[1][1][3] in ("Continue", "Ok") and v[2] in (0, "0")):
+        compact = True
+        v = v[1]
     # `X::decode(input)?` : Try::branch(result) as Continue.0
     if v[0] == "field" and v[1][0] == "downcast" and v[1][3] == "Continue" and is_call(v[1][1], "core::ops::try_trait::Try::branch", nargs=1):
         c = v[1][1][2][0]
@@ -212,6 +220,9 @@ def _decode_item(prog, b, t):
         c = v[1][1]
     else:
         raise Unrecognised("field value %s is not the Ok payload of a decode call" % path_str(t))
+    # `.map_err(|e| e.chain(..))` re-labels the error, the Ok payload is the decode call's
+    while is_call(c, "core::result::Result::map_err", nargs=2) or is_call(c, "map_err", nargs=2):
+        c = c[2][0]
     if not (c[0] == "call" and c[1]["decl"] == DEC + "::decode" and len(c[2]) == 1):
         raise Unrecognised("field value comes from %s" % path_str(c))
     gs = [g for g in c[1]["gargs"] if isinstance(g, int)]
